@@ -107,7 +107,9 @@ Inductive stmt : Type :=
 | SLine (x0 y0 x1 y1 a pattern : Z)                   (* LINE *)
 | SBox (x0 y0 x1 y1 a pattern : Z)                    (* LINE ,B *)
 | SBoxF (x0 y0 x1 y1 a : Z)                           (* LINE ,BF *)
-| SView (x0 y0 x1 y1 : Z) (absolute : bool) (fill border : option Z)   (* VIEW [SCREEN] with validated corners *)
+| SView (x0 y0 x1 y1 : Z) (absolute : bool) (fill border : option (Z * Z))
+                                                      (* VIEW [SCREEN]; fill / border: None = omitted, else (attribute as
+                                                         written, attribute drawn = _get_attr_index of it) *)
 | SPut (x y : Z) (sprite : matrix) (op : Z)           (* PUT: op 0 PSET, 1 PRESET, 2 AND, 3 OR, 4 XOR *)
 | SPixels (guard : Z) (pts : list (Z * Z * Z)) (err : Z)
                                                       (* CIRCLE / ellipse (guard 0) and DRAW (guard 2): the single-pixel
@@ -193,12 +195,14 @@ Definition stmt_reqs (st : gstate) (s : stmt) : res (viewport * list wreq * view
     (* view_: range checks of the corners (regenerated; mode.pixel_width/height = size of the page matrix), then
        _set_view: unset, draw fill and border on the whole screen, then set *)
     bind (raster_view_checks (vp_maxw vp) (vp_maxh vp) x0 y0 x1 y1) (fun _ =>
+    (* the attribute range checks are also done in view_, before anything is touched *)
+    bind (raster_view_attr_checks (option_map fst fill) (option_map fst border)) (fun _ =>
     let u := vp_unset vp in
-    let rf := match fill with Some f => gen_boxfill u x0 y0 x1 y1 f | None => [] end in
+    let rf := match fill with Some (_, f) => gen_boxfill u x0 y0 x1 y1 f | None => [] end in
     bind (match border with
-          | Some b => gen_box u (x0 - 1) (y0 - 1) (x1 + 1) (y1 + 1) b 65535
+          | Some (_, b) => gen_box u (x0 - 1) (y0 - 1) (x1 + 1) (y1 + 1) b 65535
           | None => Ok []
-          end) (fun rb => Ok (u, rf ++ rb, vp_set vp x0 y0 x1 y1 ab)))
+          end) (fun rb => Ok (u, rf ++ rb, vp_set vp x0 y0 x1 y1 ab))))
   | SPut x y sprite op =>
     bind (put_reqs vp (g_bpp st) (the_page st) x y (rectify sprite) op) (fun r => Ok (vp, r, vp))
   | SPixels _ pts _ => Ok (vp, map (fun '(y, x, a) => WReq (IInt y) (IInt x) (Fill a)) pts, vp)
@@ -287,6 +291,7 @@ Definition run_case (text : bool) (bpp w h npages : Z) (apage : Z) (bg : Z) (vp 
   | Ok _ => 0 :: concat (map (fun '(p, p') => diff_summary p p') (combine pages (g_pages st')))
               ++ enc_vp (g_vp st')
   | Err e => [1; e] ++ concat (map (fun '(p, p') => diff_summary p p') (combine pages (g_pages st')))
+               ++ enc_vp (g_vp st')
   | Host x => [2; x]
   | OutOfFuel => [3]
   end.
